@@ -180,6 +180,17 @@ CLAIMS = {
         technique="syn AST normal-form comparison of sibling implementations (engine/synq), arm-summary comparison, enum-dispatch exhaustiveness from MIR",
         engine="synq+rules",
         ref="DESIGN.md §3 C16"),
+    "C07": dict(
+        text="Decides C07 through a merge-shape certificate: each of the ten merge functions (LamportClock, LwwRegister, VectorClock, "
+             "GCounter, PNCounter, GSet, ORSet, CrdtValue::try_merge / merge_with_timestamps, ReplicatedValue::merge) is matched "
+             "exactly against the lattice idioms enumerated from the repository and turned into a term over {max, union, "
+             "pointwise(max), argmax_by(total order), nested, optlift, select}; any extra statement, guard or asymmetric argument is "
+             "'shape not certified' (fail closed). R07.1 symmetry, R07.2 idempotent operators, R07.3 associativity hazards (known "
+             "finding: type-mismatch select by outer stamps), R07.4 lexicographic total order of stamps, R07.5 strict `other > self` "
+             "everywhere and no ordering by .time alone (MIR). The certificate quantifies over all field values.",
+        technique="syntax-tree pattern matching into a lattice-term language (engine/synq), algebraic properties read off the term; MIR comparison-shape scan",
+        engine="synq+rules",
+        ref="DESIGN.md §3 C07"),
 }
 
 PENDING_REASON = "check not built yet (build in progress; DESIGN.md §3 lists the planned structural clauses)"
